@@ -142,7 +142,7 @@ def fallback_index(repo, res, rule="FF"):
                 for v in vs:
                     key = f"{rule}:{fq}:{v}:level"
                     if v == "Fallback":
-                        ok = lvl[0] == "proj" and lvl[2] == 0 and lvl[1][0] == "elem" and lvl[1][2][0] in ("map",) and \
+                        ok = lvl[0] == "proj" and lvl[2] == 0 and lvl[1][0] == "elem" and lvl[1][2][0] in ("map", "for", "for_each", "filter_map", "flat_map") and \
                             lvl[1][1][0] == "mcall" and lvl[1][1][1] == "enumerate" and \
                             P.has_bind_root("Fallback", "children")(lvl[1][1][2]) and lvl[1][1][2][0] == "mcall" and lvl[1][1][2][1] == "iter"
                         res.check(ok, rule, key, f"child i of a || node gets level {A.show(lvl)}" + ("" if ok else " -- required: its enumerate() index over children.iter()"), f"{fn.file}:{c['l']}")
@@ -197,7 +197,8 @@ def levelfield(repo, res, rule="LEVEL"):
                             l = A.resolve(b["left"], envs.get(id(b["left"])) or envs.get(id(b)))
                             r = A.resolve(b["right"], envs.get(id(b["right"])) or envs.get(id(b)))
                             for x, y in ((l, r), (r, l)):
-                                if x[0] == "bind" and x[2] == "fallback" and y[0] == "param" and y[1] == 2:
+                                xs = x[1] if x[0] == "alt" else (x,)  # or-pattern arms bind the same field of each variant
+                                if all(t[0] == "bind" and t[2] == "fallback" for t in xs) and any(P.last(t[1]) == v for t in xs) and y[0] == "param" and y[1] == 2:
                                     tested = True
                 rebuilt = any(n["k"] == "Struct" and n["path"].split("::")[-1] == v for n in A.walk(arm["body"]))
                 ok = (not identity or tested) and (rebuilt or tested)
